@@ -32,6 +32,7 @@ RULE = ("cosmologies: omega_m in [1e-3,1.5] (plus 0.3, 1, 1.5), flat (omega_k ab
         "constructor, copy(), copy.copy, copy.deepcopy, pickle. Non-trivial: a curved cosmology, or "
         "zmax > 1, or an array-valued call whose array is not a contiguous native f8 array. "
         "Distinct = distinct case JSON.")
+RULE += (" " + 'Also (copies): the object is used before it is copied (distances evaluated, extract_parms asked about other parameters).')
 ASSUMPTIONS = [
     "E^2(z) = om(1+z)^3 + ok(1+z)^2 + ol is kept >= 0.05 on [0,5] by construction (the statement speaks of "
     "cosmologies; where E^2 <= 0 the distances are undefined)",
